@@ -46,6 +46,49 @@ def mutate(rng, hexs, out):
             out.append(b[:1] + ((1 << k) + 4096).to_bytes(4, "big") + b[5:])
 
 
+def _runs_ok(ctx, exe, cases, timeout):
+    """run the harness on `cases` in a process whose address space is capped (a multi-GiB reservation then kills it at once
+    instead of grinding through page faults)"""
+    import resource
+    import subprocess
+    cp = os.path.join(ctx.workdir, "probe.cases")
+    op = os.path.join(ctx.workdir, "probe.out")
+    open(cp, "w").write("\n".join(cases) + "\n")
+
+    def cap():
+        resource.setrlimit(resource.RLIMIT_AS, (6 << 30, 6 << 30))
+    try:
+        with open(cp, "rb") as fin, open(op, "wb") as fout:
+            p = subprocess.run([exe], stdin=fin, stdout=fout, stderr=subprocess.PIPE, timeout=timeout, preexec_fn=cap,
+                               env=dict(os.environ, GOMEMLIMIT="2GiB", VERIF_SEED=str(ctx.seed)))
+    except subprocess.TimeoutExpired:
+        return False
+    return p.returncode == 0 and len(open(op).read().splitlines()) == len(cases)
+
+
+def isolate_stalls(ctx, exe, cases, muts, budget=3):
+    """inputs on which the real decoder does not come back within seconds (or kills the process) are reported with the input and
+    taken out, so that the differential can run on the rest"""
+    if _runs_ok(ctx, exe, cases, 60):
+        return cases, muts
+    for _ in range(budget):
+        lo, hi = 0, len(cases)
+        if _runs_ok(ctx, exe, cases, 30):
+            break
+        while hi - lo > 1:
+            mid = (lo + hi) // 2
+            if _runs_ok(ctx, exe, cases[lo:mid], 20):
+                lo = mid
+            else:
+                hi = mid
+        bad = cases[lo]
+        ctx.violation("C15:stall-or-exhaustion:control-decoder", f"readControlMessage did not return within 20 s or reserved more than the 6 GiB address-space cap of the probe process on a {len(muts[lo])}-byte input",
+                      {"input_hex": muts[lo].hex()[:400], "input_len": len(muts[lo])})
+        cases = cases[:lo] + cases[lo + 1:]
+        muts = muts[:lo] + muts[lo + 1:]
+    return cases, muts
+
+
 def run(ctx):
     ctx.regen()
     ctx.xlate_ok(["layout:", "const:controlType"])
@@ -88,6 +131,8 @@ def run(ctx):
              bytes([0x13]) + b"\x00" * 8 + b"\x01\xff\xff" + b"x" * 10, bytes([0x10]) + b"\xff\xff" + b"p" * 30]
     muts = list(dict.fromkeys(muts))
     dec_cases = ["dec " + (m.hex() or "-") for m in muts]
+    # a decoder that stalls or exhausts memory on some input takes the whole harness run with it: locate such inputs first
+    dec_cases, muts = isolate_stalls(ctx, pure, dec_cases, muts)
     impl2, model2, d1 = ctx.differential("fuzz", dec_cases, pure, canon=G.strip_alloc, timeout=600)
     kinds = {}
     worst = (0, "")
